@@ -16,7 +16,7 @@ import (
 type CrashHook struct {
 	mqtt.Hook
 	mu         sync.Mutex
-	Budget     int // 0 = unlimited
+	Budget     int // 0 = unlimited; n > 0: n writes pass, the next one is cut; < 0: the first write is cut
 	Writes     int
 	Crashed    bool
 	CrashEvent string
@@ -31,7 +31,7 @@ func (h *CrashHook) pass(format string, a ...any) bool {
 		return false
 	}
 	ev := fmt.Sprintf(format, a...)
-	if h.Budget > 0 && h.Writes >= h.Budget {
+	if budget := h.Budget; budget != 0 && h.Writes >= max(budget, 0) { // a negative budget cuts the very first write
 		h.Crashed, h.CrashEvent = true, ev
 		if h.onCrash != nil {
 			h.onCrash()
